@@ -31,7 +31,7 @@ def run(tier, seed):
         "wall-clock promptness is measured (best of 3, bound 20 x max_time + 250 ms); the spec only fixes where budget tests sit",
     ]
     big = tier == "thorough"
-    c = {"LevelsMenu": "<- LevelsSmall", "FactLimits": "<- FactLims", "IterLimits": "<- IterLims",
+    c = {"TimeMenu": "<- Times", "LevelsMenu": "<- LevelsSmall", "FactLimits": "<- FactLims", "IterLimits": "<- IterLims",
          "CallSeqs": "<- Calls3", "ExportOn": True}
     cfg = vlib.write_cfg(os.path.join(ctx.work, "limits.cfg"), c, INV + ["Export"])
     res = ctx.tlc("Limits", cfg, name="limits", tags=("LIM",), seed=seed)
@@ -54,6 +54,9 @@ def run(tier, seed):
     stats = collections.Counter()
     for r in rows:
         sc = cases[r["idx"]]["sc"]
+        if r.get("skipped"):
+            stats["skipped-no-slow-variant"] += 1
+            continue
         if r["ok"]:
             stats["agree"] += 1
             continue
@@ -70,7 +73,7 @@ def run(tier, seed):
             sig = "replay:limits:max-iterations-zero"
         elif len(r["observed"]) > 1 and "limit" in r["observed"][:-1] and any(o == "ok" for o in r["observed"][r["observed"].index("limit"):]):
             boundary = (mf in levels) or (mi == P and P > 0) or (mi in range(1, P + 1))
-            sig = "replay:limits:retry-after-exhaustion-succeeds" + (":at-boundary" if boundary else "")
+            sig = "replay:limits:retry-after-exhaustion-succeeds" + (":after-timeout" if sc["cost"] > 0 else (":at-boundary" if boundary else ""))
         else:
             sig = "replay:limits:" + ("budget-exceeded-on-success" if "Ok with" in first else "not-admitted")
         ctx.finding(sig, "levels %s max_facts %s max_iterations %s calls %s: %s" % (levels, mf, mi, sc["calls"], first[:200]),
@@ -105,7 +108,10 @@ def run(tier, seed):
         elif ev["ev"] == "return" and ev.get("outcome") == "ok":
             reason = "ok-after-exhaustion-or-over-budget"
         elif ev["ev"] == "return" and ev.get("outcome") == "limit":
-            reason = "limit-inside-budget"
+            # either a run-limit error inside the budgets, or an iteration count that does not
+            # match the passes actually performed
+            passes = sum(1 for x in events[start:d - 1] if x["ev"] == "iter" and x["after"] > x["before"])
+            reason = "iterations-misreported" if ev.get("iterations") != passes else "limit-inside-budget"
         else:
             reason = "other-outcome"
         ctx.finding("trace:LimitsTrace:%s:%s" % (ev["ev"], reason),
